@@ -191,6 +191,22 @@ func runC05(c *Ctx) {
 		} else {
 			name = "maxElapsedTime.Before(nextRetryTime)"
 			gotMax = true
+			// the budget runs from before the first attempt: its end is now()+MaxElapsedTime with a clock
+			// reading that cannot be reached from the attempt (taken once, before the loop)
+			okStart := false
+			nNow := 0
+			for v := range backSlice(recv) {
+				if cc, ok := v.(*ssa.Call); ok && isFunc(calleeOf(cc), "time", "Now") {
+					nNow++
+					if !canReach(att, cc, nil) && canReach(cc, att, nil) {
+						okStart = true
+					} else {
+						okStart = false
+						break
+					}
+				}
+			}
+			c.Check(okStart && nNow > 0, "the elapsed-time budget starts before the first attempt", p.Pos(call.Pos()), "end of budget = time.Now() read before the loop + MaxElapsedTime", "the end of the elapsed-time budget is derived from a clock reading taken after an attempt: the time spent in the (slow) first attempt is not counted and attempts are made after the configured budget has elapsed")
 		}
 		// Before(true) is the verdict; the cycle may bypass this If only through the "limit not set" side
 		succ := b.Block().Succs[0]
@@ -541,6 +557,66 @@ func runC05(c *Ctx) {
 		}
 	} else {
 		c.Anchor("NewBaseExporter")
+	}
+	runC05More(c)
+}
+
+// runC05More: R7 the retry sender is stopped by every shutdown (shared with C03.R1), R8 error classifiers search
+// the whole error tree.
+func runC05More(c *Ctx) {
+	p := c.P
+	{
+		sub := NewCtx(p, "C03", c.Tier, c.Config)
+		runC03(sub)
+		c.Rule("R7", "ORD", "BaseExporter.Shutdown stops the retry sender on every path, guarded only by the retry sender's own nil test (same obligations as C03.R1): a request waiting in back-off is not retried while the exporter shuts down, whether or not a queue is configured", 3)
+		for _, o := range sub.Obs {
+			if o.Rule == "C03.R1" && !strings.HasPrefix(o.Construct, "floor:") {
+				c.add(o.Verdict, o.Construct, o.Pos, o.Detail)
+			}
+		}
+	}
+	c.Rule("R8", "TAB", "the error classifiers the retry decision relies on (func(error) bool in consumererror and experr) return the verdict of errors.As / errors.Is over the whole error tree and never type-assert or unwrap the error by hand: a permanent or shutdown error joined with other errors is still recognised", 2)
+	n := 0
+	for _, rel := range []string{"consumer/consumererror", relPkg(pkgExperr)} {
+		pk := p.Pkg(rel)
+		if pk == nil {
+			c.Anchor("package " + rel)
+			continue
+		}
+		for _, fn := range p.AllSrcFuncs(pk) {
+			if fn.Parent() != nil || fn.Signature.Recv() != nil || len(fn.Params) != 1 || fn.Signature.Results().Len() != 1 || fn.Object() == nil || !fn.Object().Exported() {
+				continue
+			}
+			if !isErrorType(fn.Params[0].Type()) {
+				continue
+			}
+			if b, ok := fn.Signature.Results().At(0).Type().(*types.Basic); !ok || b.Kind() != types.Bool {
+				continue
+			}
+			n++
+			usesAs := len(callsNamed(fn, func(g *types.Func) bool { return g.FullName() == "errors.As" || g.FullName() == "errors.Is" })) > 0
+			byHand := false
+			allInstrs(fn, func(in ssa.Instruction) {
+				if ta, ok := in.(*ssa.TypeAssert); ok && isErrorType(ta.X.Type()) {
+					byHand = true
+				}
+				if call, ok := in.(*ssa.Call); ok && calleeOf(call) != nil && calleeOf(call).FullName() == "errors.Unwrap" {
+					byHand = true
+				}
+			})
+			// every true result comes from the As/Is call
+			okRes := true
+			for _, r := range returnsOf(fn) {
+				v := resultsOf(r)[0]
+				if k, ok := constBool(v); ok && k {
+					okRes = false
+				}
+			}
+			c.Check(usesAs && !byHand && okRes, fnName(fn)+" searches the whole error tree", p.Pos(fn.Pos()), "verdict of errors.As/Is", "the classifier walks the chain by hand (type assertion / errors.Unwrap) or does not use errors.As: an error joined with others (errors.Join, multierr, several %w) is not recognised – a permanent error is retried, a shutdown error deletes the stored request")
+		}
+	}
+	if n < 2 {
+		c.Undecided("error classifiers found", "-", fmt.Sprintf("%d (expected IsPermanent and IsShutdownErr)", n))
 	}
 }
 
